@@ -1,0 +1,26 @@
+//go:build verif
+
+// Code added for /verif runtime monitors: exposes the internal tower types and package-level functions.
+// Compiled only with -tags verif; adds no behaviour.
+
+package bw6633
+
+import "github.com/consensys/gnark-crypto/ecc/bw6-633/internal/fptower"
+
+// VerifTowerTypes returns one zero value (by pointer) of every exported tower type.
+func VerifTowerTypes() []any {
+	return []any{new(fptower.E3), new(fptower.E6)}
+}
+
+// VerifTowerFuncs returns the exported package-level functions of internal/fptower by name.
+func VerifTowerFuncs() map[string]any {
+	return map[string]any{
+		"BatchCompressTorus":      fptower.BatchCompressTorus,
+		"BatchDecompressKarabina": fptower.BatchDecompressKarabina,
+		"BatchDecompressTorus":    fptower.BatchDecompressTorus,
+		"BatchInvertE3":           fptower.BatchInvertE3,
+		"BatchInvertE6":           fptower.BatchInvertE6,
+		"Mul014By014":             fptower.Mul014By014,
+		"Mul01By01":               fptower.Mul01By01,
+	}
+}
